@@ -85,6 +85,15 @@ def probe_instance(rec, t, ti, source):
                 rec.violation("array-not-tuple", "tree %d %s%s.%s is a list" % (ti, ".".join(cls), where, n), {"tree": ti, "class": ".".join(cls), "attribute": n, "xml": t.files})
             # what a getter hands out must not be a handle on the instance's state: anything mutable is changed
             # in place here; the caller (one) re-serializes afterwards and compares
+            if isinstance(before, tuple):
+                # elements of an array: the tuple is immutable, what it holds must be too
+                for el in before[:4]:
+                    if isinstance(el, (bytearray, list)):
+                        rec.count("mutable-values-handed-out")
+                        el.extend(b"\x01\x02") if isinstance(el, bytearray) else el.append(0)
+                        rec.violation("getter-hands-out-mutable-state", "tree %d %s%s.%s (%s instance) holds a %s element: changing it in place changes the instance" % (
+                            ti, ".".join(cls), where, n, source, type(el).__name__), {"tree": ti, "class": ".".join(cls), "attribute": n, "source": source, "xml": t.files})
+                        break
             if isinstance(before, (bytearray, list, dict, set)):
                 rec.count("mutable-values-handed-out")
                 try:
